@@ -17,19 +17,20 @@ def run(tier, replay=None):
     # fault scenarios of the readers: each is model-checked (safety + liveness), toured or sampled, and explored
     # under random / PCT schedules on the real code
     plan += reader_cfgs([
-        ("lz2-bad1", "lzma2", 2, ["I", "I", "I"], dict(bad=[1]), "tour"),
+        ("lz2-bad1", "lzma2", 2, ["I", "I", "I"], dict(bad=[1], calls_after_err=1), "tour"),
+        ("lz2-bad1-again", "lzma2", 2, ["I", "I", "I"], dict(bad=[0], calls_after_err=2), "rand"),
         ("lz2-bad0", "lzma2", 2, ["I", "I", "I"], dict(bad=[0]), "rand"),
         ("lz2-bad2", "lzma2", 2, ["I", "I", "I"], dict(bad=[2]), "rand"),
         ("lz2-zero", "lzma2", 2, [], dict(terminated=False), "tour"),
         ("lz2-empty-ok", "lzma2", 2, [], dict(), "tour"),
         ("lz2-noterm", "lzma2", 2, ["I", "I", "I"], dict(terminated=False), "rand"),
         ("lz2-noterm1", "lzma2", 2, ["I"], dict(terminated=False), "tour"),
-        ("lz2-srcfail", "lzma2", 2, ["I", "I", "X"], dict(), "tour"),
+        ("lz2-srcfail", "lzma2", 2, ["I", "I", "X"], dict(calls_after_err=1), "tour"),
         ("lz2-srcfail0", "lzma2", 2, ["X"], dict(), "tour"),
         ("lz2-dep-bad", "lzma2", 2, ["I", "D", "I"], dict(bad=[1]), "rand"),
         ("lz2-panic1", "lzma2", 2, ["I", "I", "I"], dict(panic=[1]), "rand"),
         ("lzip-bad1", "lzip", 2, ["M", "M", "M"], dict(bad=[1]), "rand"),
-        ("lzip-bad0", "lzip", 2, ["M", "M"], dict(bad=[0]), "tour"),
+        ("lzip-bad0", "lzip", 2, ["M", "M"], dict(bad=[0], calls_after_err=1), "tour"),
         ("lzip-panic0", "lzip", 2, ["M", "M"], dict(panic=[0]), "rand"),
         ("lz2-valid", "lzma2", 2, ["I", "I", "I"], dict(), "rand"),
     ] + ([] if quick else [
@@ -41,4 +42,4 @@ def run(tier, replay=None):
         ("lz2-bad1-full", "lzma2", 2, ["I", "I", "I"], dict(bad=[1]), "fulltour"),
     ]))
     plan += writer_cfgs(quick, fault=True)
-    run_plan(ctx, {"C09"}, plan, quick)
+    run_plan(ctx, {"C09"}, plan, quick, lzip_scan=True)
